@@ -11,9 +11,12 @@
 package ptalph
 
 import (
+	"bytes"
 	"fmt"
 	"math/big"
+	"reflect"
 	"sync"
+	"unsafe"
 
 	"github.com/oasisprotocol/curve25519-voi/curve"
 	"github.com/oasisprotocol/curve25519-voi/curve/scalar"
@@ -206,4 +209,99 @@ func REnc(p *curve.RistrettoPoint) []byte {
 		panic(err)
 	}
 	return b
+}
+
+// ---------------------------------------------------------------------------
+// Deep snapshots of caller-owned inputs (scalars, points, expanded points,
+// tables): a call must leave every input bit-identical.
+
+// Snapshot records the memory of every object (pointers to structs) and of
+// everything reachable from it through pointers, keyed by address.  Fields of
+// package sync (a lazily-built-state guard may legitimately flip) are skipped.
+type Snapshot map[uintptr][]byte
+
+func snapAt(s Snapshot, p unsafe.Pointer, t reflect.Type) {
+	switch t.Kind() {
+	case reflect.Ptr:
+		q := *(*unsafe.Pointer)(p)
+		if q != nil {
+			if _, seen := s[uintptr(q)]; !seen {
+				snapAt(s, q, t.Elem())
+			}
+		}
+	case reflect.Struct:
+		if t.PkgPath() == "sync" || t.PkgPath() == "sync/atomic" {
+			return
+		}
+		if !hasPointers(t) {
+			if t.Size() > 0 {
+				s[uintptr(p)] = append([]byte{}, unsafe.Slice((*byte)(p), t.Size())...)
+			}
+			return
+		}
+		for i := 0; i < t.NumField(); i++ {
+			f := t.Field(i)
+			snapAt(s, unsafe.Add(p, f.Offset), f.Type)
+		}
+	case reflect.Array:
+		if !hasPointers(t) {
+			if t.Size() > 0 {
+				s[uintptr(p)] = append([]byte{}, unsafe.Slice((*byte)(p), t.Size())...)
+			}
+			return
+		}
+		for i := 0; i < t.Len(); i++ {
+			snapAt(s, unsafe.Add(p, uintptr(i)*t.Elem().Size()), t.Elem())
+		}
+	case reflect.Slice, reflect.Map, reflect.Chan, reflect.Func, reflect.Interface, reflect.String, reflect.UnsafePointer:
+		// not used by the value types of the curve package; ignored
+	default:
+		if t.Size() > 0 {
+			s[uintptr(p)] = append([]byte{}, unsafe.Slice((*byte)(p), t.Size())...)
+		}
+	}
+}
+
+func hasPointers(t reflect.Type) bool {
+	switch t.Kind() {
+	case reflect.Ptr, reflect.Slice, reflect.Map, reflect.Chan, reflect.Func, reflect.Interface, reflect.String, reflect.UnsafePointer:
+		return true
+	case reflect.Struct:
+		if t.PkgPath() == "sync" || t.PkgPath() == "sync/atomic" {
+			return true // handled (skipped) field by field
+		}
+		for i := 0; i < t.NumField(); i++ {
+			if hasPointers(t.Field(i).Type) {
+				return true
+			}
+		}
+	case reflect.Array:
+		return t.Len() > 0 && hasPointers(t.Elem())
+	}
+	return false
+}
+
+// Snap takes a deep snapshot of the given objects (each a non-nil pointer).
+func Snap(objs ...interface{}) Snapshot {
+	s := Snapshot{}
+	for _, o := range objs {
+		v := reflect.ValueOf(o)
+		if v.Kind() != reflect.Ptr || v.IsNil() {
+			continue
+		}
+		snapAt(s, v.UnsafePointer(), v.Type().Elem())
+	}
+	return s
+}
+
+// Changed reports whether memory that was reachable both before and now differs
+// (memory that only became reachable later, e.g. a lazily built table, is not compared).
+func (s Snapshot) Changed(objs ...interface{}) bool {
+	now := Snap(objs...)
+	for addr, b := range s {
+		if nb, ok := now[addr]; ok && !bytes.Equal(b, nb) {
+			return true
+		}
+	}
+	return false
 }
